@@ -365,8 +365,11 @@ fn main() {
             continue;
         }
         let r = router.as_mut().unwrap();
+        // X<OP>: the same event, marked in the op file as NOT sent by the addressed connection's
+        // own link (a stale / foreign signal); the router cannot tell the difference
+        let opname = t[0].strip_prefix('X').filter(|r| ["DATA", "READY", "DISCONNECT", "SHADOW"].contains(r)).unwrap_or(t[0]);
         let res = catch_unwind(AssertUnwindSafe(|| -> String {
-            match t[0] {
+            match opname {
                 "CONNECT" => {
                     let client = String::from_utf8(unhex(t[1])).expect("client id must be utf8");
                     let (will, wprops) = if t[5] == "-" {
